@@ -26,3 +26,17 @@ Definition pv_H (path : str) (root_len : nat) : option str :=
 (* %P: path.strip_prefix(starting point) *)
 Definition pv_P (path : str) (root_len : nat) : option str :=
   match pv_H path root_len with Some h => strip_prefix path h | None => None end.
+
+(* ---- the numeric directives: %s %n %i %U %G %d print their value in decimal, %m the permission bits in octal
+   (format!("{}"), format!("{:o}")): the digits of the number, most significant first, nothing else ---- *)
+From Coq Require Import NArith.
+Fixpoint to_digits (fuel : nat) (b n : N) (acc : list nat) : list nat :=
+  match fuel with
+  | 0 => acc
+  | S f => let acc' := (48 + N.to_nat (n mod b))%nat :: acc in
+           if (n / b =? 0)%N then acc' else to_digits f b (n / b) acc'
+  end.
+Definition render_num (b n : N) : list nat := to_digits (S (N.to_nat (N.log2 n))) b n [].
+(* how such a text is read back *)
+Fixpoint value_of (b : N) (ds : list nat) (acc : N) : N :=
+  match ds with [] => acc | d :: ds' => value_of b ds' (acc * b + N.of_nat (d - 48))%N end.
